@@ -30,6 +30,7 @@ CONFIG = dict(
     assumptions=["announcement timestamps are time.Now() at the call",
                  "operations are issued one at a time; 40 marker round trips after NotifyReceived mean it was consumed (2^-40)",
                  "requests made while suspended are not forbidden by the property (the fetcher's re-fetch timer ignores Suspend)"],
+    level_more='Units TestC16InterestFlip (every pending item uninteresting for longer than the bound, then interesting again without a new announcement; monitor rule T2) and TestC16ReceiptBurst (more receipts than MaxQueuedBatches while the loop is held inside a slow callback).',
     units=[
         dict(test="TestC16Regression", kind="plain"),
         dict(test="TestC16Timeline", quick=6, thorough=608, shards=16),
